@@ -105,15 +105,21 @@ func (ex *Exec) sortSlice(st *State, call *ast.CallExpr, args []Val, stable bool
 	inR := func(t *Term) *Term { return And(Le(IntLit(0), t), Lt(t, n)) }
 	newAt := func(t *Term) *Term { return Select(nw, Add(p.off, t)) }
 	oldAt := func(t *Term) *Term { return Select(inner, Add(p.off, t)) }
-	// permutation
+	// permutation (relative index k, triggered on pi / pinv)
 	st.assume(Forall([]*Term{k}, Implies(inR(k), And(inR(pi(k)), Eq(newAt(k), oldAt(pi(k))), Eq(pinv(pi(k)), k))), []*Term{pi(k)}))
 	st.assume(Forall([]*Term{k}, Implies(inR(k), And(inR(pinv(k)), Eq(pi(pinv(k)), k))), []*Term{pinv(k)}))
+	// the same facts over absolute positions, triggered on array reads
+	pp, qq := BVar("p", SInt), BVar("q", SInt)
+	inW := func(t *Term) *Term { return And(Le(p.off, t), Lt(t, Add(p.off, n))) }
+	rel := func(t *Term) *Term { return Sub(t, p.off) }
+	st.assume(Forall([]*Term{pp}, Implies(inW(pp), And(inR(pi(rel(pp))), Eq(Select(nw, pp), oldAt(pi(rel(pp)))))), []*Term{Select(nw, pp)}))
+	st.assume(Forall([]*Term{pp}, Implies(inW(pp), And(inR(pinv(rel(pp))), Eq(Select(inner, pp), newAt(pinv(rel(pp)))))), []*Term{Select(inner, pp)}))
 	// frame inside the array
 	m := BVar("m", SInt)
 	st.assume(Forall([]*Term{m}, Implies(Or(Lt(m, p.off), Ge(m, Add(p.off, n))), Eq(Select(nw, m), Select(inner, m))), []*Term{Select(nw, m)}))
 	// sorted
+	st.assume(Forall([]*Term{pp, qq}, Implies(And(inW(pp), inW(qq), Lt(pp, qq)), Not(L(Select(nw, qq), Select(nw, pp)))), []*Term{Select(nw, pp), Select(nw, qq)}))
 	i, j := BVar("i", SInt), BVar("j", SInt)
-	st.assume(Forall([]*Term{i, j}, Implies(And(inR(i), inR(j), Lt(i, j)), Not(L(newAt(j), newAt(i)))), []*Term{newAt(i), newAt(j)}))
 	if stable {
 		st.assume(Forall([]*Term{i, j}, Implies(And(inR(i), inR(j), Lt(i, j), Not(L(newAt(i), newAt(j)))), Lt(pi(i), pi(j))), []*Term{pi(i), pi(j)}))
 	}
